@@ -86,9 +86,7 @@ theorem columns_spec_up_pre (g : Globals) (hg : g.dialect = .mysql) (hio : g.ign
     (heo : execAll rc [] old = some dbO) (hen : execAll rc [] new = some dbN)
     (d : Migration) (hd : loadAndDiff g old new = .ok d)
     (t : String) (tbO tbN : TableSpec) (hfo : dbO.find t = some tbO) (hfn : dbN.find t = some tbN)
-    (hc : Abs.OrderCompatible tbN.colNames tbO.colNames) (hne : ∀ n ∈ tbN.colNames ++ tbO.colNames, n ≠ "")
-    (hncO : ∀ c ∈ tbO.cols, ∀ k ∈ c.opts, k.noComment = true)
-    (hncN : ∀ c ∈ tbN.cols, ∀ k ∈ c.opts, k.noComment = true) :
+    (hc : Abs.OrderCompatible tbN.colNames tbO.colNames) (hne : ∀ n ∈ tbN.colNames ++ tbO.colNames, n ≠ "") :
     ∃ td ∈ d.tables, td.name = t ∧ td.action = .none ∧
       td.migrationColumnUp g = .ok (Table.walkCols g t true [] td.cols) ∧
       ∃ cols', colExecAll tbO.cols (Table.walkCols g t true [] td.cols).1 = some cols' ∧ colsEquiv cols' tbN.cols = true ∧
@@ -99,7 +97,7 @@ theorem columns_spec_up_pre (g : Globals) (hg : g.dialect = .mysql) (hio : g.ign
   have hnc : new.all Stmt.colSafe = true :=
     List.all_eq_true.mpr (fun s hs => Stmt.colSafe_of_elemSafe s (List.all_eq_true.mp hn s hs))
   obtain ⟨td, htd, hname, hact, hup, cols', hex, heq⟩ := columns_spec_up g hg hio rc old new dbO dbN ho hn hpo hpn heo hen d hd
-    t tbO tbN hfo hfn hc hne hncO hncN
+    t tbO tbN hfo hfn hc hne
   -- the old reference schema has distinct table names
   obtain ⟨mo, _, hro⟩ := ReaderMysql.run_rel rc old {} [] dbO Rel.empty hoc heo
   -- uniqueness of the diffed record and of the statement about a column
@@ -184,9 +182,9 @@ theorem columns_spec_up_pre (g : Globals) (hg : g.dialect = .mysql) (hio : g.ign
               cN cO hcN hcO hcOn hsame.1 hsame.2
             rw [huniq td' htd' hn'] at hno
             exact absurd (by rw [h1, hcNn]) (hno true s hs)
-          · have hchg : cO.typ ≠ cN.typ ∨ (¬ cO.opts.Perm cN.opts ∧ (∀ k ∈ cO.opts, k.noComment = true) ∧ (∀ k ∈ cN.opts, k.noComment = true)) := by
+          · have hchg : cO.typ ≠ cN.typ ∨ ¬ cO.opts.Perm cN.opts := by
               by_cases ht : cO.typ = cN.typ
-              · exact Or.inr ⟨fun hp => hsame ⟨ht, hp⟩, hncO cO hcO, hncN cN hcN⟩
+              · exact Or.inr (fun hp => hsame ⟨ht, hp⟩)
               · exact Or.inl ht
             obtain ⟨td', htd', hn', _, ⟨cd0, hmem, hpk, hcdn, _, _⟩, _⟩ := changed_column_modified g hg rc old new dbO dbN ho hn hpo hpn
               heo hen d hd t tbO tbN hfo hfn cN cO hcN hcO hcOn hchg
@@ -227,15 +225,13 @@ theorem columns_spec_up_db (g : Globals) (hg : g.dialect = .mysql) (hio : g.igno
     (heo : execAll rc [] old = some dbO) (hen : execAll rc [] new = some dbN)
     (d : Migration) (hd : loadAndDiff g old new = .ok d)
     (t : String) (tbO tbN : TableSpec) (hfo : dbO.find t = some tbO) (hfn : dbN.find t = some tbN)
-    (hc : Abs.OrderCompatible tbN.colNames tbO.colNames) (hne : ∀ n ∈ tbN.colNames ++ tbO.colNames, n ≠ "")
-    (hncO : ∀ c ∈ tbO.cols, ∀ k ∈ c.opts, k.noComment = true)
-    (hncN : ∀ c ∈ tbN.cols, ∀ k ∈ c.opts, k.noComment = true) :
+    (hc : Abs.OrderCompatible tbN.colNames tbO.colNames) (hne : ∀ n ∈ tbN.colNames ++ tbO.colNames, n ≠ "") :
     ∃ td ∈ d.tables, td.name = t ∧ td.migrationColumnUp g = .ok (Table.walkCols g t true [] td.cols) ∧
       ∃ db' tb', execAll false dbO (Table.walkCols g t true [] td.cols).1 = some db' ∧
         db'.find t = some tb' ∧ colsEquiv tb'.cols tbN.cols = true ∧
         (∀ u, u ≠ t → db'.find u = dbO.find u) ∧ db'.map (·.name) = dbO.map (·.name) := by
   obtain ⟨td, htd, hname, _, hup, cols', hex, heq, hss, hnd⟩ := columns_spec_up_pre g hg hio rc old new dbO dbN ho hn hpo hpn heo hen d hd
-    t tbO tbN hfo hfn hc hne hncO hncN
+    t tbO tbN hfo hfn hc hne
   obtain ⟨db', tb', he', hf', hc', hother, hnames'⟩ := execAll_of_colExecAll _ dbO t tbO cols' hnd hfo hss hex
   exact ⟨td, htd, hname, hup, db', tb', he', hf', by rw [hc']; exact heq, hother, hnames'⟩
 
